@@ -126,25 +126,16 @@ func New(ch Chooser) *Sched {
 // Release detaches the scheduler; sim primitives fall back to their real behaviour.
 func (s *Sched) Release() { cur.CompareAndSwap(s, nil) }
 
+// goid identifies the calling goroutine by the address of its g (unique while it is alive;
+// the mapping is dropped when a task exits, so a recycled g is adopted afresh).
+//
 //go:norace
-func goid() uint64 {
-	var buf [48]byte
-	n := runtime.Stack(buf[:], false)
-	var id uint64
-	for i := len("goroutine "); i < n; i++ {
-		c := buf[i]
-		if c < '0' || c > '9' {
-			break
-		}
-		id = id*10 + uint64(c-'0')
-	}
-	return id
-}
+func goid() uint64 { return uint64(getg()) }
 
 //go:norace
 func (s *Sched) gidLookup(g uint64) *Task {
 	mask := uint64(len(s.gids) - 1)
-	for i := (g * 0x9E3779B97F4A7C15) >> 20 & mask; ; i = (i + 1) & mask {
+	for i := ((g >> 4) * 0x9E3779B97F4A7C15) >> 20 & mask; ; i = (i + 1) & mask {
 		e := &s.gids[i]
 		if e.gid == g {
 			return e.t
@@ -168,7 +159,7 @@ func (s *Sched) gidInsert(g uint64, t *Task) {
 		}
 	}
 	mask := uint64(len(s.gids) - 1)
-	for i := (g * 0x9E3779B97F4A7C15) >> 20 & mask; ; i = (i + 1) & mask {
+	for i := ((g >> 4) * 0x9E3779B97F4A7C15) >> 20 & mask; ; i = (i + 1) & mask {
 		e := &s.gids[i]
 		if e.gid == 0 || e.gid == g {
 			if e.gid == 0 {
@@ -185,7 +176,7 @@ func (s *Sched) gidInsert(g uint64, t *Task) {
 //go:norace
 func (s *Sched) gidDelete(g uint64) {
 	mask := uint64(len(s.gids) - 1)
-	for i := (g * 0x9E3779B97F4A7C15) >> 20 & mask; ; i = (i + 1) & mask {
+	for i := ((g >> 4) * 0x9E3779B97F4A7C15) >> 20 & mask; ; i = (i + 1) & mask {
 		e := &s.gids[i]
 		if e.gid == g {
 			e.t = nil
